@@ -18,10 +18,10 @@ Definition ofKrige (k : C01.Model.kcase) : sx :=
 
 Definition asRow (s : sx) : option row :=
   match s with
-  | L [sel; w; vals; verr] =>
-      match asOQ sel, asOQ w, asListOf asOQ vals, asListOf asOQ verr with
-      | Some a, Some b, Some c, Some d => Some {| r_sel := a; r_w := b; r_vals := c; r_verr := d |}
-      | _, _, _, _ => None
+  | L [sel; w; coords; vals; verr] =>
+      match asOQ sel, asOQ w, asListOf asOQ coords, asListOf asOQ vals, asListOf asOQ verr with
+      | Some a, Some b, Some x, Some c, Some d => Some {| r_sel := a; r_w := b; r_coords := x; r_vals := c; r_verr := d |}
+      | _, _, _, _, _ => None
       end
   | _ => None
   end.
@@ -56,20 +56,26 @@ Definition run (c : sx) : sx :=
              ofList (fun i1 => ofList (fun i2 => ofMulti (stat_multi false hw' i1 i2 (reduce_rows hs' l))) (seq 0 nv')) (seq 0 nv')]
       | _, _, _, _ => sx_error 2
       end
-  | L [I 3%Z; hs; nz; nv; ivars; nbgh; us; uv; rows] =>
-      match asB hs, asNat nz, asNat nv, asListOf asNat ivars, asListOf asNat nbgh, asB us, asB uv, asListOf asRow rows with
-      | Some hs', Some nz', Some nv', Some iv', Some nb', Some us', Some uv', Some l =>
-          L [ofList (ofList ofNat) (multiple_ranks_active hs' nz' nv' iv' nb' us' uv' l);
+  | L [I 3%Z; hs; nz; nv; ivars; nbgh; us; uv; uc; rows] =>
+      match asB hs, asNat nz, asNat nv, asListOf asNat ivars, asListOf asNat nbgh, asB us, asB uv, asB uc, asListOf asRow rows with
+      | Some hs', Some nz', Some nv', Some iv', Some nb', Some us', Some uv', Some uc', Some l =>
+          L [ofList (ofList ofNat) (multiple_ranks_active hs' nz' nv' iv' nb' us' uv' uc' l);
              ofList (fun r => ofB (is_active hs' r)) l;
-             ofList ofNat (kept_rows hs' l);
-             ofList (ofList ofNat) (map (map (ren (kept_rows hs' l))) (multiple_ranks_active hs' nz' nv' iv' [] us' uv' (reduce_db hs' l)))]
-      | _, _, _, _, _, _, _, _ => sx_error 3
+             ofList ofNat (kept_rows hs' uc' l);
+             ofList (ofList ofNat) (map (map (ren (kept_rows hs' uc' l))) (multiple_ranks_active hs' nz' nv' iv' [] us' uv' uc' (reduce_db hs' uc' l)))]
+      | _, _, _, _, _, _, _, _, _ => sx_error 3
       end
   | L [I 4%Z; nold; nnew; ests; rows] =>
       match asNat nold, asNat nnew, asListOf (asListOf asOQ) ests, asListOf asTrow rows with
       | Some a, Some b, Some e, Some ts =>
           ofList (fun t => L [ofB (t_active t); ofList ofOQ (t_cells t)]) (run_targets a b (fun it => nth it e []) ts)
       | _, _, _, _ => sx_error 4
+      end
+  | L [I 7%Z; nold; nnew; ests; rows] =>
+      match asNat nold, asNat nnew, asListOf (asListOf asOQ) ests, asListOf asTrow rows with
+      | Some a, Some b, Some e, Some ts =>
+          ofList (fun t => L [ofB (t_active t); ofList ofOQ (t_cells t)]) (run_simu_targets a b (fun it => nth it e []) ts)
+      | _, _, _, _ => sx_error 7
       end
   | L [I 5%Z; kc] =>
       match C01.Run.asCase kc with
